@@ -13,6 +13,8 @@ import (
 	"net/http"
 	"net/http/httptest"
 	"net/netip"
+	"os"
+	"path/filepath"
 	"sort"
 
 	"github.com/tailscale/setec/acl"
@@ -148,13 +150,16 @@ func (t *Tracker) Resolve(o Op) uint32 {
 type Result struct {
 	Class    model.Class
 	AltOther bool // expected only: "some other error" is acceptable too
-	Ver      uint32
-	Val      []byte
-	HasVal   bool
-	Info     *model.InfoM
-	List     []model.InfoM
-	IsList   bool
-	Err      string
+	// expected only: "not found" is acceptable too - two refusal reasons apply (the version number 0
+	// is invalid AND the secret does not exist) and no property says which one is reported
+	AltNotFound bool
+	Ver         uint32
+	Val         []byte
+	HasVal      bool
+	Info        *model.InfoM
+	List        []model.InfoM
+	IsList      bool
+	Err         string
 }
 
 func (r Result) String() string {
@@ -203,13 +208,16 @@ func (t *Tracker) Expect(rules []model.Rule, o Op, ver uint32) Result {
 		}
 		return Result{Class: c}
 	case "activate":
-		return Result{Class: m.Activate(o.Name, ver)}
+		bothApply := ver == 0 && o.Name != "" && m[o.Name] == nil
+		c := m.Activate(o.Name, ver)
+		return Result{Class: c, AltNotFound: bothApply && c == model.Other}
 	case "delver":
+		bothApply := ver == 0 && m[o.Name] == nil // (the empty name is not refused as such by delete-version)
 		c := m.DeleteVersion(o.Name, ver)
 		if c == model.OK {
 			t.Deleted[o.Name] = append(t.Deleted[o.Name], ver)
 		}
-		return Result{Class: c}
+		return Result{Class: c, AltNotFound: bothApply && c == model.Other}
 	case "del":
 		c := m.Delete(o.Name)
 		if c == model.OK {
@@ -256,7 +264,7 @@ func (t *Tracker) Expect(rules []model.Rule, o Op, ver uint32) Result {
 
 // Compare returns "" when got satisfies want.
 func Compare(got, want Result) string {
-	if got.Class != want.Class && !(want.AltOther && got.Class == model.Other) {
+	if got.Class != want.Class && !(want.AltOther && got.Class == model.Other) && !(want.AltNotFound && got.Class == model.NotFound) {
 		return fmt.Sprintf("outcome %s, want %s", got, want)
 	}
 	if got.Class != model.OK {
@@ -275,8 +283,11 @@ func Compare(got, want Result) string {
 		if len(want.List) != len(got.List) {
 			return fmt.Sprintf("list %+v, want %+v", got.List, want.List)
 		}
-		for i := range want.List {
-			if !infoEq(want.List[i], got.List[i]) {
+		// no property fixes the ORDER of a listing: compared as sets of entries (a name listed twice
+		// would show as a mismatch, the model has every name once)
+		w, g := byName(want.List), byName(got.List)
+		for i := range w {
+			if !infoEq(w[i], g[i]) {
 				return fmt.Sprintf("list %+v, want %+v", got.List, want.List)
 			}
 		}
@@ -284,12 +295,25 @@ func Compare(got, want Result) string {
 	return ""
 }
 
+func byName(l []model.InfoM) []model.InfoM {
+	out := append([]model.InfoM{}, l...)
+	sort.SliceStable(out, func(i, j int) bool { return out[i].Name < out[j].Name })
+	return out
+}
+
+func sortedVers(v []uint32) []uint32 {
+	out := append([]uint32{}, v...)
+	sort.Slice(out, func(i, j int) bool { return out[i] < out[j] })
+	return out
+}
+
 func infoEq(a, b model.InfoM) bool {
 	if a.Name != b.Name || a.Active != b.Active || len(a.Versions) != len(b.Versions) {
 		return false
 	}
-	for i := range a.Versions {
-		if a.Versions[i] != b.Versions[i] {
+	av, bv := sortedVers(a.Versions), sortedVers(b.Versions) // (the order in which versions are listed is not fixed either)
+	for i := range av {
+		if av[i] != bv[i] {
 			return false
 		}
 	}
@@ -586,12 +610,12 @@ func Dump(d *db.DB) (model.KV, error) {
 	if err != nil {
 		return nil, fmt.Errorf("list: %w", err)
 	}
-	prev := ""
-	for i, in := range infos {
-		if i > 0 && in.Name <= prev {
-			return nil, fmt.Errorf("list not strictly sorted: %q after %q", in.Name, prev)
+	listed := map[string]bool{}
+	for _, in := range infos {
+		if listed[in.Name] {
+			return nil, fmt.Errorf("list shows %q twice", in.Name)
 		}
-		prev = in.Name
+		listed[in.Name] = true
 		s := &model.Sec{Vers: map[uint32]string{}, Active: uint32(in.ActiveVersion)}
 		for _, v := range in.Versions {
 			sv, err := d.GetVersion(su, in.Name, v)
@@ -625,6 +649,64 @@ func Dump(d *db.DB) (model.KV, error) {
 	return out, nil
 }
 
+// DumpVia reads the complete visible state through a Target (e.g. the HTTP front door) as caller su:
+// list, then info, get, get-version of every version, and a CONDITIONAL get naming every existing
+// version, the next unassigned one and every number in probe[name] (versions that once were or were
+// asked for): "not changed" exactly for the active version, the active version's value otherwise.
+func DumpVia(t Target, su CallerM, probe map[string][]uint32) (model.KV, error) {
+	out := model.KV{}
+	lr := t.Do(su, Op{Kind: "list"}, 0)
+	if lr.Class != model.OK {
+		return nil, fmt.Errorf("list: %s", lr)
+	}
+	listed := map[string]bool{}
+	for _, in := range lr.List {
+		if listed[in.Name] {
+			return nil, fmt.Errorf("list shows %q twice", in.Name)
+		}
+		listed[in.Name] = true
+		s := &model.Sec{Vers: map[uint32]string{}, Active: in.Active}
+		maxV := uint32(0)
+		for _, v := range in.Versions {
+			r := t.Do(su, Op{Kind: "getver", Name: in.Name}, v)
+			if r.Class != model.OK || r.Ver != v {
+				return nil, fmt.Errorf("listed version %d of %q: get-version gives %s", v, in.Name, r)
+			}
+			s.Vers[v] = string(r.Val)
+			if v > maxV {
+				maxV = v
+			}
+		}
+		ir := t.Do(su, Op{Kind: "info", Name: in.Name}, 0)
+		if ir.Class != model.OK || ir.Info == nil || !infoEq(*ir.Info, in) {
+			return nil, fmt.Errorf("list and info disagree on %q: %+v vs %s", in.Name, in, ir)
+		}
+		gr := t.Do(su, Op{Kind: "get", Name: in.Name}, 0)
+		if gr.Class != model.OK || gr.Ver != in.Active || string(gr.Val) != s.Vers[in.Active] {
+			return nil, fmt.Errorf("get of %q gives %s, info says active %d = %q", in.Name, gr, in.Active, s.Vers[in.Active])
+		}
+		if _, ok := s.Vers[s.Active]; !ok {
+			return nil, fmt.Errorf("active version %d of %q does not exist", s.Active, in.Name)
+		}
+		asks := append(append([]uint32{maxV + 1}, in.Versions...), probe[in.Name]...)
+		for _, v := range asks {
+			if v == 0 {
+				continue
+			}
+			cr := t.Do(su, Op{Kind: "cond", Name: in.Name}, v)
+			if v == in.Active {
+				if cr.Class != model.NotChanged {
+					return nil, fmt.Errorf("conditional get of %q naming its active version %d gives %s, want not-changed", in.Name, v, cr)
+				}
+			} else if cr.Class != model.OK || cr.Ver != in.Active || string(cr.Val) != s.Vers[in.Active] {
+				return nil, fmt.Errorf("conditional get of %q naming version %d (active is %d) gives %s, want the active version and its value", in.Name, v, in.Active, cr)
+			}
+		}
+		out[in.Name] = s
+	}
+	return out, nil
+}
+
 // DumpDiff compares a dump with the model ("" when equal).
 func DumpDiff(got model.KV, want model.KV) string {
 	g, w := got.Render(false), want.Render(false)
@@ -647,7 +729,9 @@ func OpenDiscard(path string, key tink.AEAD) (*db.DB, error) {
 // ---------------------------------------------------------------- generators
 
 var BaseNames = []string{"a", "b", "dev/c"}
-var OddNames = []string{"", "_internal/x", "a ", " dev/c", "_internal/a", "_internal", "_internalx"}
+var OddNames = []string{"", "_internal/x", "a ", " dev/c", "_internal/a", "_internal", "_internalx",
+	// differs from a base name in letter case only: names are compared byte for byte
+	"A", "Dev/c"}
 var ValuePool = [][]byte{{}, []byte("x"), []byte("y"), []byte("zz"), nil, []byte(" "), []byte("x\n"), []byte("x")}
 var vsels = []string{"zero", "active", "latest", "next", "existing", "existing", "deleted", "huge", "abs"}
 var opKindsMut = []string{"put", "put", "put", "activate", "activate", "delver", "delver", "del", "get", "getver", "cond", "info", "list"}
@@ -706,6 +790,24 @@ func GenHistory(rt *rapid.T, minLen, maxLen int) []Op {
 	return rapid.SliceOfN(rapid.Custom(func(rt *rapid.T) Op { return GenOp(rt, names, opKindsMut, 1) }), minLen, maxLen).Draw(rt, "ops")
 }
 
+// DeepPuts is a prefix that gives one secret n versions with pairwise different values: a secret that
+// has been rotated many times (versions are never pruned behind the caller's back).
+func DeepPuts(name string, n int) []Op {
+	ops := make([]Op, 0, n)
+	for i := 0; i < n; i++ {
+		ops = append(ops, Op{Kind: "put", Name: name, Val: []byte(fmt.Sprintf("rotation-%d", i))})
+	}
+	return ops
+}
+
+// GenDeep draws how many versions such a prefix creates (0 = none; one history in sixty has one).
+func GenDeep(rt *rapid.T) int {
+	if rapid.IntRange(0, 59).Draw(rt, "deep") != 0 {
+		return 0
+	}
+	return rapid.SampledFrom([]int{66, 66, 130, 260}).Draw(rt, "deep-n")
+}
+
 // HistoryClasses classifies a history by the interesting shapes it contains.
 func HistoryClasses(ops []Op, res []model.Class) (classes []string, nontrivial bool) {
 	seen := map[string]bool{}
@@ -750,4 +852,34 @@ func HistoryClasses(ops []Op, res []model.Class) (classes []string, nontrivial b
 	sort.Strings(classes)
 	nontrivial = seen["delete-version-then-put"] || seen["delete-then-recreate"] || seen["activate-then-put"]
 	return
+}
+
+// ---------------------------------------------------------------- outages
+
+// Outage makes a state directory unavailable while f runs - it is renamed away, so that creating a
+// temporary file in it or replacing a file in it fails - and puts it back afterwards.  held is
+// false if the code under test re-created the directory in the meantime and carried on (an
+// implementation is free to): then there was no outage to speak of; whatever was written during f is
+// in the new directory, files that only the old one had are moved over, and the caller judges the
+// call like any other.
+func Outage(dir string, f func()) (held bool, err error) {
+	away := dir + ".away"
+	if err := os.Rename(dir, away); err != nil {
+		return false, fmt.Errorf("rename: %w", err)
+	}
+	f()
+	if _, serr := os.Lstat(dir); serr != nil {
+		if err := os.Rename(away, dir); err != nil {
+			return false, fmt.Errorf("rename back: %w", err)
+		}
+		return true, nil
+	}
+	es, _ := os.ReadDir(away)
+	for _, e := range es {
+		if _, serr := os.Lstat(filepath.Join(dir, e.Name())); serr != nil {
+			os.Rename(filepath.Join(away, e.Name()), filepath.Join(dir, e.Name()))
+		}
+	}
+	os.RemoveAll(away)
+	return false, nil
 }
